@@ -9,6 +9,7 @@ C15: Governance.tla (layout table, representability, builder) with its lemmas ch
      the contracts' offsets and sizes extracted from the .ral sources and compared with the layout table."""
 import copy
 import json
+import re
 import time
 from collections import Counter
 
@@ -53,7 +54,7 @@ ASSUME17 = [
     "the harness issues a request only after the previous step's sentinel was received and the ticker channel is empty, i.e. tick processing "
     "latency is negligible against the minute-scale window (in production select may serve a request before a simultaneously due tick)",
     "mock clock semantics as modelled in MC_Reobserve.tla (ticks at multiples of the period since creation, 1-slot channel, non-blocking offer)",
-    "watcher queues have a single consumer; chain id 65535 is reserved for the harness's sentinel requests",
+    "watcher queues have a single consumer; the harness's sentinel requests name a chain no watcher serves (65535, or 65533 in histories where 65535 is a watched chain)",
     "'about eleven minutes' is read as: suppressed for age < 11 min, forwarded again for age >= 11 min + one purge period (7 min), free in between",
 ]
 ASSUME15 = [
@@ -105,9 +106,23 @@ def _selftests17(scenario_lines):
     return extra, expect
 
 
+def _settle(prop, rc, verdict, problems):
+    """Verdict order: violations found from real-code behaviour come first (exit 1).  Vacuity guards and negative
+    self-tests of the machinery decide only when no new violation was found (then: exit 2); otherwise they are notes,
+    because a grossly wrong implementation (refuses / crashes on everything) makes the run vacuous by itself."""
+    if not problems:
+        return rc
+    if rc == 0:
+        raise vlib.Broken("; ".join(problems))
+    for p in problems:
+        print("note (not a verdict, %d violation(s) reported above): %s" % (getattr(verdict, "n_unknown", 0), p))
+    return rc
+
+
 def run17(tier, replay):
     t0 = time.time()
     prop = "C17"
+    problems = []
     work = vlib.scratch(prop)
     plan = PLAN17[tier]
     seed = vlib.seed()
@@ -134,7 +149,7 @@ def run17(tier, replay):
     rejs, r = fg.reobs_validate(work, lines + extra)
     selfrej = {rj["t"] for rj in rejs if rj["t"] in expect}
     if not replay and (len(expect) < 2 or selfrej != set(expect)):
-        raise vlib.Broken("negative self-test of Trace_Reobserve failed: corrupted traces %s, rejected %s" % (expect, sorted(selfrej)))
+        problems.append("negative self-test of Trace_Reobserve failed: corrupted traces %s, rejected %s" % (expect, sorted(selfrej)))
     rejs = [rj for rj in rejs if rj["t"] not in expect]
     print("trace validation: %d states, %.1fs, %d rejected line(s); self-test: %d corrupted traces rejected" % (r["distinct"], r["wall_s"], len(rejs), len(selfrej)))
 
@@ -176,8 +191,8 @@ def run17(tier, replay):
                 "post-ok": any(k[0] for k in postc), "post-full": any(not k[0] for k in postc),
                 "colliding-tx-ids-forwarded": aliasc["forwarded"] >= 20, "tx-id-lengths": len(txlens) >= 8}
         missing = [k for k, v in need.items() if not v]
-        if missing and rc == 0:
-            raise vlib.Broken("vacuous run: never observed %s" % missing)
+        if missing:
+            problems.append("vacuous run: never observed %s" % missing)
     caps = Counter()
     for sc in scenarios:
         for c, k in sc["cfg"]["caps"].items():
@@ -207,8 +222,9 @@ def run17(tier, replay):
         "rejected_lines": len(verdict.items), "known_findings_matched": getattr(verdict, "n_known", 0),
         "exhaustive": False,
     }
+    cov["check_notes"] = problems
     vlib.write_evidence(prop, tier, "model_checking", cov, ASSUME17, time.time() - t0, getattr(verdict, "n_unknown", 0))
-    return rc
+    return _settle(prop, rc, verdict, problems)
 
 
 # ============================================================================ C15
@@ -218,8 +234,9 @@ def _selftests15(lines):
     after later constructions; TLC must reject each copy."""
     extra, expect = [], {}
     tid = 900000
-    base = next((ln for ln in lines if all(c["class"] == "vaa" for c in ln["s"]["calls"]) and len(ln["s"]["calls"]) == 6
-                 and ln["a"]["req"]["kind"] == "transfer_fee"), None)
+    full = [ln for ln in lines if all(c["class"] == "vaa" for c in ln["s"]["calls"]) and len(ln["s"]["calls"]) == 6
+            and len(ln["s"]["calls"][0]["vaa"]["payload"]) < 400]
+    base = next((ln for ln in full if ln["a"]["req"]["kind"] == "transfer_fee"), full[0] if full else None)
     if base is None:
         return extra, expect
 
@@ -232,14 +249,14 @@ def _selftests15(lines):
         calls = ln["s"]["calls"]
         if name == "payload":
             for c in calls:
-                c["vaa"]["payload"] = flip(c["vaa"]["payload"], 70)
+                c["vaa"]["payload"] = flip(c["vaa"]["payload"], len(c["vaa"]["payload"]) - 1)
         elif name == "header":
             for c in calls:
                 c["vaa"]["seq"] = flip(c["vaa"]["seq"], 15)
         elif name == "impure":
             calls[1]["vaa"]["cl"] = calls[1]["vaa"]["cl"] + 1
         elif name == "later":      # only the value read again at the end differs (aliasing)
-            calls[-1]["vaa"]["payload"] = flip(calls[-1]["vaa"]["payload"], 70)
+            calls[-1]["vaa"]["payload"] = flip(calls[-1]["vaa"]["payload"], len(calls[-1]["vaa"]["payload"]) - 1)
         else:
             for c in calls:
                 c["vaa"]["digest"] = flip(c["vaa"]["digest"], 3)
@@ -264,6 +281,7 @@ def _shape(v):
 def run15(tier, replay):
     t0 = time.time()
     prop = "C15"
+    problems = []
     work = vlib.scratch(prop)
     seed = vlib.seed()
     verdict = vlib.Verdict(prop)
@@ -307,7 +325,8 @@ def run15(tier, replay):
     if not replay:
         wrong = [k for k, name in expect.items() if {"later": "impure"}.get(name, name) not in seen.get(k, [])]
         if len(expect) < 5 or wrong:
-            raise vlib.Broken("negative self-test of Trace_Governance failed: %s not rejected as expected (%s)" % (wrong, seen))
+            problems.append("negative self-test of Trace_Governance failed: %s not rejected as expected (%s); "
+                            "the self-test needs one request the node accepts on every path" % (wrong, seen))
     rejs = [rj for rj in rejs if rj["t"] not in expect]
     print("trace validation: %.1fs, %d rejected request(s); self-test: %d corrupted lines rejected" % (r["wall_s"], len(rejs), len(seen)))
     byt = {ln["t"]: ln for ln in lines}
@@ -327,7 +346,8 @@ def run15(tier, replay):
     for t, (c, _) in tmap.items():
         if c.get("src") == "tlc" and c.get("expect", {}).get("class") == "reject":
             if any(k["class"] == "vaa" for k in byt[t]["s"]["calls"]) and t not in rejected_ids:
-                raise vlib.Broken("TLC's exported expectation and trace validation disagree on case %d" % t)
+                problems.append("TLC's exported expectation and trace validation disagree on case %d" % t)
+                break
     # independent digest check
     dig_checked = dig_bad = 0
     for ln in lines:
@@ -337,7 +357,7 @@ def run15(tier, replay):
                 if not fg.gov_own_digest_ok(c["vaa"]):
                     dig_bad += 1
     if dig_bad:
-        raise vlib.Broken("the harness's own digest disagrees with the pure-python Keccak on %d VAAs" % dig_bad)
+        problems.append("the harness's own digest disagrees with the pure-python Keccak on %d VAAs" % dig_bad)
     rc = verdict.finish()
 
     outc = Counter()
@@ -370,14 +390,15 @@ def run15(tier, replay):
                 la, lb = len(a["s"]["calls"][0]["vaa"]["payload"]), len(b["s"]["calls"][0]["vaa"]["payload"])
                 same = a["a"]["req"]["kind"] == b["a"]["req"]["kind"]
                 multi["%s-kind/next-%s" % ("same" if same else "other", "shorter" if lb < la else "equal" if lb == la else "longer")] += 1
-    if not replay and rc == 0:
+    if not replay:
         need = ["same-kind/next-shorter", "same-kind/next-equal", "same-kind/next-longer", "other-kind/next-shorter", "other-kind/next-longer"]
         miss = [k for k in need if not multi[k]]
         if miss or not later_reads:
-            raise vlib.Broken("vacuous run: multi-message classes %s never accepted / %d later re-reads" % (miss, later_reads))
+            problems.append("vacuous run: multi-message classes %s never accepted / %d later re-reads" % (miss, later_reads))
         none_acc = [k for k in fg.GOV_KINDS if not accepted[k]]
         if none_acc:
-            raise vlib.Broken("vacuous run: no request of kind %s was accepted, the exact-payload half was not exercised" % none_acc)
+            problems.append("vacuous run: no request of kind %s was accepted on every path, the exact-payload half was not exercised "
+                            "(a node that only refuses is allowed by the property, so this is 'cannot decide', not a violation)" % none_acc)
     sample = [{"source": c.get("src"), "req": c.get("req"), "reqs": c.get("reqs")} for c in cases[:1] + cases[-1:] if len(json.dumps(c)) < 6000]
     cov = {
         "states": mc["distinct"], "transitions": mc["generated"],
@@ -400,9 +421,23 @@ def run15(tier, replay):
         "rejected_requests": len(rejs), "known_findings_matched": getattr(verdict, "n_known", 0),
         "exhaustive": False,
     }
+    cov["check_notes"] = problems
     vlib.write_evidence(prop, tier, "model_checking", cov, ASSUME15, time.time() - t0, getattr(verdict, "n_unknown", 0))
-    return rc
+    return _settle(prop, rc, verdict, problems)
 
 
 def run(prop, tier, replay=None):
-    return run17(tier, replay) if prop == "C17" else run15(tier, replay)
+    try:
+        return run17(tier, replay) if prop == "C17" else run15(tier, replay)
+    except fg.ProcessCrash as e:
+        # the whole test process was killed from inside the code under test (e.g. an unrecovered panic in a goroutine the
+        # code started, a runtime fatal error): "no request crashes the node" / "never blocks the dispatcher"
+        verdict = vlib.Verdict(prop)
+        sig = "process-crash/%s/%s" % (e.where, re.sub(r"[^A-Za-z0-9]+", "-", e.msg)[:60].strip("-"))
+        verdict.add(sig, {"output": e.out})
+        rc = verdict.finish()
+        vlib.write_evidence(prop, tier, "model_checking", {"states": 0, "transitions": 0, "traces_validated_against_impl": 0, "samples": [e.msg],
+                                                           "evaluations": 0, "distinct_nontrivial": 0,
+                                                           "rule": "the harness process was killed inside the code under test before any trace could be validated"},
+                            [], 0, getattr(verdict, "n_unknown", 0))
+        return rc
